@@ -1,7 +1,11 @@
 //! C19 driver: built once per cargo feature set; reads a workload (JSON lines) and writes one
 //! result record per line (flushed per item, so a crash loses only the item it happened in).
+//! An item that makes no progress for 10 s ends the process (exit 3): the harness records the
+//! item as "died" for this build and restarts behind it.
 mod ops;
 use std::io::{BufRead, Write};
+use std::sync::atomic::{AtomicU64, Ordering};
+use std::sync::Arc;
 
 fn main() {
   let a: Vec<String> = std::env::args().collect();
@@ -11,6 +15,8 @@ fn main() {
   // a[3] = index of the first item to process (records are appended): the harness restarts the
   // driver behind an item that killed it
   let start: usize = a.get(3).and_then(|x| x.parse().ok()).unwrap_or(0);
+  let progress = Arc::new(AtomicU64::new(0));
+  let p2 = progress.clone();
   let h = std::thread::Builder::new()
     .stack_size(256 << 20)
     .spawn(move || {
@@ -21,8 +27,23 @@ fn main() {
         let r = ops::result_of(&item);
         writeln!(out, "{}", r).unwrap();
         out.flush().unwrap();
+        p2.fetch_add(1, Ordering::SeqCst);
       }
     })
     .unwrap();
-  h.join().unwrap();
+  let mut last = 0;
+  let mut since = std::time::Instant::now();
+  while !h.is_finished() {
+    std::thread::sleep(std::time::Duration::from_millis(50));
+    let p = progress.load(Ordering::SeqCst);
+    if p != last {
+      last = p;
+      since = std::time::Instant::now();
+    } else if since.elapsed().as_secs() >= 10 {
+      std::process::exit(3);
+    }
+  }
+  if h.join().is_err() {
+    std::process::exit(4);
+  }
 }
